@@ -31,7 +31,14 @@ RULE = (
     'arrival times (result variances against first-order propagation) and on the other operands, bin- / event- / '
     'pixel-level masks, caller dimensions labelled like internal names (event, row, x, spectrum, coordinate names, '
     'origin, target), a DataArray subclass, second use (after refused calls, after the caller modified graphs handed '
-    'out earlier, result fed back, display / copy / deepcopy / pickle in between), and one heavy shard '
+    'out earlier, result fed back, display / copy / deepcopy / pickle in between), workspaces without a single '
+    'physical arrival (every value of the tof coordinate and of the events at or before the observed t0: every '
+    'coordinate layout x both geometries in every shard, so also under the strict-caller / -OO / decimal variants of '
+    'shard 0; result: returned, all NaN), the caller\'s objects holding other contents at an earlier call and '
+    'rewritten in place, writes into operands / into the returned energy transfer (no shared memory, operands '
+    'untouched by the call, same call gives the first result again), bystander coordinates and target / mode names '
+    'that only NFKC-normalise to names of the interface, the first call of each entry point in a fresh interpreter '
+    '(bitwise equal to the same call here), operand dimensions of length 1..4 in every pair, and one heavy shard '
     '(2**20+7 events, 3 x 400001 points); distinct = (kernel, energy unit, tof unit, length units, dtype class, '
     'layout, energy decade) signatures, (form, geometry, layout, dtype) for the forms'
 )
@@ -108,9 +115,10 @@ class Monitors:
         self.boundary = None  # (t0 values aligned to tof) for the boundary call
         self.convert_kind = None  # geometry of the data the workload hands to convert()
         self.expect_refusal = None  # name of a deliberately unacceptable call in flight (its refusal is counted)
+        self.mute = False  # a call on contents the workload does not vouch for (domain not checked): not judged
 
     def t0(self, ev):
-        if ev.exc is None:
+        if ev.exc is None and not self.mute:
             self.last_t0 = ev.result
 
     def kernel(self, kind):
@@ -118,6 +126,8 @@ class Monitors:
         name = f'energy_transfer_{kind}_from_tof'
 
         def h(ev):
+            if self.mute:
+                return
             self.last_args = ev.args
             case = {'kernel': name, **self.meta, 'args': {k: describe(v) for k, v in ev.args.items()}}
             if ev.exc is not None:
@@ -353,14 +363,17 @@ def f32_domain_ok(kind, units, L1_u, L2_u, Efix_u, t_u):
     return True
 
 
-def gen(rng, ctx, kind, layout, f32, units):
-    """Simulate neutrons; returns kwargs for the kernel and the simulated truth."""
+def gen(rng, ctx, kind, layout, f32, units, shape=None):
+    """Simulate neutrons; returns kwargs for the kernel and the simulated truth.  shape = (pixels, times) fixes the
+    lengths of the two operand dimensions (otherwise drawn)."""
     ue, ut, ul1, ul2 = units
     fe, ft = float(si.lookup(sc.Unit(ue))[0]), float(si.lookup(sc.Unit(ut))[0])
     fl1, fl2 = float(si.lookup(sc.Unit(ul1))[0]), float(si.lookup(sc.Unit(ul2))[0])
     meV = float(si.lookup(sc.Unit('meV'))[0])
     npix = 1 if layout == 'scalar' else int(rng.integers(1, 8))
     nt = 1 if layout == 'scalar' else int(rng.integers(1, 25))
+    if shape is not None and layout != 'scalar':
+        npix, nt = shape
     dt = 'float32' if f32 else 'float64'
     per_pixel_L1 = layout in ('2d', 'binned') and rng.random() < 0.25
     L1 = 10.0 ** rng.uniform(-1, 3, size=npix) if per_pixel_L1 else np.full(npix, 10.0 ** rng.uniform(-1, 3))
@@ -606,13 +619,85 @@ def _convert(ctx, scn, mon, da, flag=True):
     return True
 
 
-def result_probe(rng, ctx, scn, mon, kind, j, form=None, K=None):
+def unphysical_class_name(kind, c):
+    return f'no physical arrival time at all ({kind}): tof ' + ', '.join(c)
+
+
+def all_unphysical_rows(rng, t0c, common, npt, fl):
+    """Per pixel, in ascending order: a negative time, zero, four times inside the fixed leg, t0 - 2 ulp, t0 - 1 ulp
+    and t0 itself (the t0 the code computed): no neutron of the workspace can have flown the fixed leg yet (the
+    prompt-pulse part of a bank converted on its own, a frame cut before the first arrival).  A coordinate common to
+    all pixels stays at or below the smallest t0 of the bank."""
+    tl = np.full_like(t0c, np.min(t0c)) if common else t0c
+    inf = fl(np.inf)
+    dn1 = np.nextafter(tl, -inf)
+    fr = np.sort(rng.uniform(0.05, 0.999, size=4))
+    cols = [-tl * fl(rng.uniform(0.01, 3.0)), np.zeros_like(tl), *(tl * fl(f) for f in fr),
+            np.nextafter(dn1, -inf), dn1, tl]
+    r64 = np.stack(cols, axis=-1).astype(np.float64)
+    lim = tl.astype(np.float64)[:, None]
+    if npt is np.int64:
+        rows = np.floor(r64).astype(np.int64)
+        rows = np.where(rows.astype(np.float64) > lim, rows - 1, rows)
+    else:
+        rows = r64.astype(npt)
+        # the arrival times are stored in a narrower type than t0: rounding must not lift one above t0
+        rows = np.where(rows.astype(np.float64) > lim, np.nextafter(rows, npt(-np.inf)), rows)
+    return np.sort(rows, axis=1)
+
+
+def _target_coords(out, target='energy_transfer'):
+    """{'dense' / 'events' (of item ...): the target coordinate} of what a conversion returned."""
+    found = {}
+    if target in out.coords:
+        found['dense coordinate'] = out.coords[target]
+    if isinstance(out, sc.DataArray) and out.bins is not None and target in out.bins.coords:
+        found['event coordinate'] = out.bins.coords[target]
+    return found
+
+
+def _buf(v):
+    return v.bins.constituents['data'] if ops.is_binned(v) else v
+
+
+def convert_all_unphysical(ctx, scn, mon, kind, da, flag):
+    """convert() on a workspace without a single physical arrival: it returns (no exception, whatever the caller's
+    warning policy is - the strict-caller variant of the runner repeats this with warnings as errors) and every
+    energy transfer, dense and per event, is NaN."""
+    try:
+        out = scn.convert(da, 'tof', 'energy_transfer', scatter=flag)
+    except Exception as e:  # noqa: BLE001
+        ctx.violation('convert_raised', f'convert raised {type(e).__name__}: {e}', dict(mon.meta),
+                      family='all-unphysical workspace')
+        return False
+    try:
+        found = _target_coords(out)
+        bad = [n for n, v in found.items() if not np.all(np.isnan(np.asarray(_buf(v).values, dtype=np.float64)))]
+    except Exception:  # noqa: BLE001
+        ctx.oracle_error('convert_all_unphysical')
+        return False
+    ctx.event('all_unphysical_workspace')
+    if bad:
+        ctx.violation('not_nan_below_t0', f'convert({kind}): a workspace whose arrival times are all at or before t0 '
+                      f'came back with energy transfers that are not NaN ({", ".join(bad)})', dict(mon.meta),
+                      kernel=kind, at='workspace')
+        return False
+    ctx.count('all-unphysical workspaces: returned, every energy transfer NaN')
+    ctx.count('all-unphysical workspaces: energy transfers seen to be NaN',
+              int(sum(_buf(v).values.size for v in found.values())))
+    return True
+
+
+def result_probe(rng, ctx, scn, mon, kind, j, form=None, K=None, unphysical=False, dimlen=None):
     """convert(..., 'tof', 'energy_transfer') judged on what it returns.
 
     Stage 1 converts the simulated arrival times as a per-pixel point coordinate; the t0 helper is observed.
     Stage 2 puts, into the coordinate layout of the class, per row: a negative time, zero, a time inside the
     fixed leg, {t0-2ulp .. t0+2ulp, 2 t0} of the observed t0, and the simulated arrival times, in ascending
-    order (a histogram's edges; every third pass in descending order)."""
+    order (a histogram's edges; every third pass in descending order).
+
+    unphysical=True: the workspace of stage 2 holds no physical arrival at all (see all_unphysical_rows); every
+    energy transfer of the result must be NaN and the call must return."""
     if form is None:
         cls = RESULT_CLASSES[(j // 2) % len(RESULT_CLASSES)]
         f32 = (j // (2 * len(RESULT_CLASSES))) % 3 == 2
@@ -628,7 +713,7 @@ def result_probe(rng, ctx, scn, mon, kind, j, form=None, K=None):
     units = ('meV', 'us', 'm', 'm') if f32 else PROBE_UNITS[int(rng.integers(0, len(PROBE_UNITS)))]
     kw = None
     for _attempt in range(20):
-        kw, sig = gen(rng, ctx, kind, '2d', f32, units)
+        kw, sig = gen(rng, ctx, kind, '2d', f32, units, shape=dimlen)
         if kw is not None:
             break
     if kw is None:
@@ -642,6 +727,10 @@ def result_probe(rng, ctx, scn, mon, kind, j, form=None, K=None):
                 'order': 'descending' if descending else 'ascending'}
     if form is not None:
         mon.meta['form'] = form['name']
+    if unphysical:
+        mon.meta['workspace'] = 'no physical arrival time at all'
+    if dimlen is not None:
+        mon.meta['sizes'] = list(dimlen)
     # stage 1
     mon.last_t0 = None
     da1 = sc.DataArray(sc.ones(dims=tof.dims, shape=tof.shape, unit='counts'),
@@ -666,6 +755,8 @@ def result_probe(rng, ctx, scn, mon, kind, j, form=None, K=None):
         rows = np.concatenate([np.stack(cols, axis=-1).astype(np.float64), tv.astype(np.float64)], axis=1)
         rows = np.rint(rows).astype(npt) if npt is np.int64 else rows.astype(npt)
     rows = np.sort(rows, axis=1)
+    if unphysical:
+        rows = all_unphysical_rows(rng, t0c, shape == 'common 1-d', npt, fl)
     if descending:  # scipp accepts edges in either monotonic order
         rows = rows[:, ::-1].copy()
         ctx.hit('convert result: coordinate in descending order')
@@ -713,13 +804,21 @@ def result_probe(rng, ctx, scn, mon, kind, j, form=None, K=None):
         if exact:
             b = t0['pixel', 0].copy() if (single and 'pixel' in t0.dims) else t0
             mon.boundary = b.rename_dims({k: v for k, v in dimmap.items() if k in b.dims})
-        if form is None:
+        if unphysical:
+            if not convert_all_unphysical(ctx, scn, mon, kind, da, scatter_true(ctx, j // 2)):
+                return None
+        elif form is None:
             if not _convert(ctx, scn, mon, da, scatter_true(ctx, j // 2)):
                 return None
         elif not call_form(form, rng, ctx, scn, K, mon, kind, da, j):
             return None
     finally:
         mon.boundary = None
+    if unphysical:
+        ctx.hit(unphysical_class_name(kind, cls))
+        return ('all-unphysical workspace', kind, *cls, str(tof.dtype), 'descending' if descending else 'ascending')
+    if dimlen is not None:
+        ctx.hit(size_class_name('convert', dimlen))
     if form is None:
         ctx.hit(result_class_name(cls))
         if exact:
@@ -879,6 +978,446 @@ def _energy_names(kind):
     return ('incident_energy', 'final_energy') if kind == 'direct' else ('final_energy', 'incident_energy')
 
 
+# ---------------------------------------- the caller writes into its objects ---
+# scipp objects are mutable and share memory freely (a Dataset and its items, sc.bins and the table it was made
+# from, a coordinate handed to several data arrays).  The property speaks about the values the operands hold WHEN
+# the conversion is called and about the result it returned: neither a later write into an operand nor a write into
+# the computed energy transfer may change the other.  (Coordinates that convert() merely carries over - tof, L1,
+# L2, the data values - are documented shallow copies and are not looked at.)
+def _operand_vars(da, kind):
+    """Live references to the operands of the conversion as they sit on the object handed to convert()."""
+    en = 'incident_energy' if kind == 'direct' else 'final_energy'
+    live = {n: da.coords[n] for n in ('tof', 'L1', 'L2', en) if n in da.coords}
+    if _is_binned_da(da) and 'tof' in da.bins.coords:
+        live['tof of the events'] = da.bins.coords['tof']
+    return live
+
+
+def _snapshot(v):
+    b = _buf(v)
+    return np.array(b.values, copy=True), b.unit, b.dtype
+
+
+def _same(v, snap):
+    b = _buf(v)
+    a = np.asarray(b.values)
+    return (b.unit == snap[1] and b.dtype == snap[2] and a.shape == snap[0].shape
+            and bool(np.array_equal(a, snap[0], equal_nan=a.dtype.kind == 'f')))
+
+
+def _write(v, arr):
+    """Write into the memory the variable already has (never rebinds)."""
+    _buf(v).values[...] = arr
+
+
+def _other_contents(arr):
+    """Different numbers of the same kind: every time later, every length / energy larger."""
+    with np.errstate(all='ignore'):
+        return (np.abs(arr.astype(np.float64)) * 1.75 + 1.0).astype(arr.dtype)
+
+
+def earlier_call_on_other_contents(ctx, scn, mon, kind, da, flag):
+    """The very objects of the probe hold other contents (values of every operand, the unit of L1) while convert()
+    is called a first time; the caller then writes the contents of the probe into the same memory.  The conversion
+    that follows must answer for the new contents.  The first call is not judged (its contents are arbitrary)."""
+    try:
+        live = _operand_vars(da, kind)
+        snaps = {n: _snapshot(v) for n, v in live.items()}
+    except Exception:  # noqa: BLE001
+        ctx.oracle_error('in place: operands')
+        return False
+    saved = (mon.boundary, mon.convert_kind)
+    mon.boundary, mon.convert_kind, mon.mute = None, None, True
+    try:
+        try:
+            for n, v in live.items():
+                _write(v, _other_contents(snaps[n][0]))
+            u1 = snaps['L1'][1]
+            live['L1'].unit = sc.Unit('mm') if u1 != sc.Unit('mm') else sc.Unit('cm')
+        except Exception:  # noqa: BLE001
+            ctx.oracle_error('in place: writing the earlier contents')
+            return False
+        try:
+            scn.convert(da, 'tof', 'energy_transfer', scatter=flag)
+            ctx.count('in place: first call (earlier contents) returned')
+        except Exception as e:  # noqa: BLE001  arbitrary contents: whatever the package does with them is tallied
+            ctx.count(f'in place: first call (earlier contents) raised {type(e).__name__}')
+    finally:
+        mon.boundary, mon.convert_kind = saved
+        mon.mute = False
+        try:
+            for n, v in live.items():
+                _write(v, snaps[n][0])
+            live['L1'].unit = snaps['L1'][1]
+            restored = all(_same(v, snaps[n]) for n, v in live.items())
+        except Exception:  # noqa: BLE001
+            restored = False
+    if not restored:
+        ctx.oracle_error('in place: contents of the probe not restored')
+        return False
+    ctx.count('in place: operands rewritten between two calls', len(live))
+    return True
+
+
+def _alias_case(mon, **kw):
+    return {**{k: v for k, v in mon.meta.items()}, **kw}
+
+
+def aliasing_of_result(ctx, mon, kind, da, out, target, invoke, held=None):
+    """(1) write into every operand in place: the energy transfer obtained before must not move; (2) write into the
+    energy transfer: no operand may move, and the same call on the same objects gives the first result again."""
+    try:
+        live = _operand_vars(da, kind)
+        res = _target_coords(out, target)
+        snap_a = {n: _snapshot(v) for n, v in live.items()}
+        snap_r = {n: _snapshot(v) for n, v in res.items()}
+    except Exception:  # noqa: BLE001
+        ctx.oracle_error('aliasing: snapshots')
+        return False
+    if not res:
+        return False  # reported by the result monitor (no target)
+    found = False
+    # held: what the operands held before the call
+    for n in (held or {}):
+        try:
+            changed = n in live and not _same(live[n], held[n])
+        except Exception:  # noqa: BLE001
+            ctx.oracle_error('aliasing: operands before / after')
+            return False
+        if changed:
+            found = True
+            ctx.violation('operand_modified', f'the conversion changed the contents of {n} on the object the caller '
+                          'passed', _alias_case(mon, operand=n), at='convert')
+    for n, v in live.items():
+        try:
+            _write(v, _other_contents(snap_a[n][0]))
+            moved = [r for r, rv in res.items() if not _same(rv, snap_r[r])]
+            _write(v, snap_a[n][0])
+        except Exception:  # noqa: BLE001
+            ctx.oracle_error('aliasing: writing into an operand')
+            return False
+        for r in moved:
+            found = True
+            ctx.violation('aliasing', f'the {target} ({r}) returned earlier changed when the caller wrote into {n} of '
+                          'the object it had passed', _alias_case(mon, operand=n, result=r),
+                          direction='operand -> earlier result')
+    writable = 0
+    for r, rv in res.items():
+        try:
+            _write(rv, np.full_like(snap_r[r][0], 7.25))
+            writable += 1
+        except Exception:  # noqa: BLE001  a read-only result cannot be written through
+            ctx.count('aliasing: result not writable')
+            continue
+        try:
+            moved = [n for n, v in live.items() if not _same(v, snap_a[n])]
+            for n in moved:
+                _write(live[n], snap_a[n][0])
+        except Exception:  # noqa: BLE001
+            ctx.oracle_error('aliasing: comparing the operands')
+            return False
+        for n in moved:
+            found = True
+            ctx.violation('aliasing', f'{n} of the object passed in changed when the caller wrote into the {target} '
+                          f'({r}) of the result', _alias_case(mon, operand=n, result=r),
+                          direction='result -> operand')
+    again = _target_coords(invoke(), target)  # judged by the monitors like every call; exceptions: the caller's handler
+    try:
+        differs = [r for r in res if r not in again or not _same(again[r], snap_r[r])]
+    except Exception:  # noqa: BLE001
+        ctx.oracle_error('aliasing: comparing the repeated call')
+        return False
+    for r in differs:
+        found = True
+        ctx.violation('aliasing', f'the same call on the same objects after the caller wrote into the {target} ({r}) '
+                      'of the first result does not give the first result again', _alias_case(mon, result=r),
+                      direction='repeat after write into result')
+    try:  # the first result goes on to the result monitor: give it back what it held
+        for r, rv in res.items():
+            _write(rv, snap_r[r][0])
+    except Exception:  # noqa: BLE001
+        ctx.count('aliasing: result not writable')
+    ctx.event('aliasing')
+    ctx.count('aliasing: operands written / results written', len(live) + writable)
+    return not found
+
+
+ALIAS_LAYOUTS = ('scalar', '2d', 'common_tof', 'binned')
+
+
+def aliasing_kernel_cases(rng, ctx, K, mon, kind):
+    """The same two questions for the kernels themselves (the result is a new variable, the operands are the
+    caller's), in every operand layout; then the caller writes other arrival times into the SAME tof variable and
+    calls again with the very same objects: the monitor judges that return against the new contents."""
+    kernel = getattr(K, f'energy_transfer_{kind}_from_tof')
+    for layout in ALIAS_LAYOUTS:
+        kw, sig = gen(rng, ctx, kind, layout, False, ('meV', 'us', 'm', 'm'))
+        mon.meta = {'family': 'aliasing', 'layout': layout, 'kernel': kind}
+        mon.last_t0 = None
+
+        live = dict(kw)
+        try:
+            snap_a = {n: _snapshot(v) for n, v in live.items()}
+        except Exception:  # noqa: BLE001
+            ctx.oracle_error('aliasing (kernel)')
+            continue
+        try:
+            first = kernel(**kw)
+        except Exception:  # noqa: BLE001  judged by the kernel monitor
+            continue
+        try:
+            for n, v in live.items():
+                if not _same(v, snap_a[n]):
+                    ctx.violation('operand_modified', f'the kernel changed the contents of the caller\'s {n}',
+                                  _alias_case(mon, operand=n), at='kernel')
+                    _write(v, snap_a[n][0])
+            snap_r = _snapshot(first)
+            found = False
+            for n, v in live.items():
+                _write(v, _other_contents(snap_a[n][0]))
+                moved = not _same(first, snap_r)
+                _write(v, snap_a[n][0])
+                if moved:
+                    found = True
+                    ctx.violation('aliasing', f'the energy transfer returned earlier changed when the caller wrote into '
+                                  f'{n}', _alias_case(mon, operand=n), direction='operand -> earlier result')
+            _write(first, np.full_like(snap_r[0], 7.25))
+            for n, v in live.items():
+                if not _same(v, snap_a[n]):
+                    found = True
+                    _write(v, snap_a[n][0])
+                    ctx.violation('aliasing', f'{n} changed when the caller wrote into the energy transfer returned',
+                                  _alias_case(mon, operand=n), direction='result -> operand')
+        except Exception:  # noqa: BLE001
+            ctx.oracle_error('aliasing (kernel)')
+            continue
+        try:
+            again = kernel(**kw)
+        except Exception:  # noqa: BLE001  judged by the kernel monitor
+            continue
+        try:
+            if not _same(again, snap_r):
+                ctx.violation('aliasing', 'the same kernel call on the same objects after the caller wrote into the first '
+                              'result does not give the first result again', _alias_case(mon),
+                              direction='repeat after write into result')
+            ctx.event('aliasing')
+            # (k) other arrival times in the same variable, same objects
+            _write(kw['tof'], _other_contents(snap_a['tof'][0]))
+            mon.meta = {'family': 'in place', 'layout': layout, 'kernel': kind}
+        except Exception:  # noqa: BLE001
+            ctx.oracle_error('aliasing (kernel)')
+            continue
+        try:
+            later = kernel(**kw)  # judged by the kernel monitor against what the operands hold now
+        except Exception:  # noqa: BLE001
+            continue
+        try:
+            # a result that still is the first one although no arrival time is what it was (all-NaN results aside)
+            a0 = snap_r[0]
+            if a0.size and not np.all(np.isnan(a0)) and _same(later, snap_r):
+                ctx.violation('stale_result', 'kernel called again with the same objects after the caller wrote other '
+                              'arrival times into the tof variable: the result of the earlier contents came back',
+                              _alias_case(mon), kernel=kind)
+            ctx.event('in_place_between_calls')
+        except Exception:  # noqa: BLE001
+            ctx.oracle_error('in place (kernel)')
+        ctx.hit(f'aliasing / in place, kernel operands: {layout}')
+        ctx.case(('aliasing', kind, layout))
+
+
+# ------------------------------------------------------------- names ---
+# Names are compared code point by code point: a string that only NORMALISES (NFKC) to a name of the interface is
+# another name.  On the data such coordinates are bystanders; as target / energy mode they name nothing.
+def _fullwidth_first(name):
+    return chr(ord(name[0]) + 0xFEE0) + name[1:]
+
+
+def deco_lookalike_coords(rng, ctx, da, kind):
+    en, other_en = _energy_names(kind)
+
+    def one(d):
+        d = d.copy(deep=False)
+        d.coords[_fullwidth_first(other_en)] = sc.scalar(3.0, unit='meV')  # is not the other energy
+        d.coords[_fullwidth_first(en)] = sc.scalar(1.0e-3, unit='meV')  # is not the fixed energy
+        d.coords[_fullwidth_first('L1')] = sc.scalar(1.0e-3, unit='m')
+        d.coords[_fullwidth_first('L2')] = sc.scalar(1.0e3, unit='m')
+        d.coords[_fullwidth_first('tof')] = sc.scalar(0.0, unit='us')
+        d.coords['energy\uff3ftransfer'] = sc.scalar(0.0, unit='meV')  # FULLWIDTH LOW LINE: is not the target
+        d.coords['Ltota\u2113'] = sc.scalar(1.0, unit='m')  # SCRIPT SMALL L
+        return d
+    return _items(da, one), {}
+
+
+# FULLWIDTH LATIN SMALL LETTER E / D / T, FULLWIDTH LOW LINE, LATIN SMALL LETTER LONG S, SMALL ROMAN NUMERAL ONE,
+# SCRIPT SMALL O (all NFKC-equivalent to the ASCII spelling); a trailing COMBINING ACUTE ACCENT (another name in
+# every normal form)
+LOOKALIKE_TARGETS = ('\uff45nergy_transfer', 'energy\uff3ftransfer', 'energy_tran\u017ffer', 'energy_transfer\u0301')
+LOOKALIKE_MODES = ('\uff44irect_inelastic', 'direct\uff3finelastic', 'indirect_inela\u017ftic',
+                   'indirect_\u2170nelastic')
+LOOKALIKE_ORIGINS = ('\uff54of', 't\u2134f', 'tof\u0301')
+
+
+def lookalike_name_calls(ctx, scn, da, kind):
+    """Targets / energy modes / origins that are only look-alikes of the interface's names.  A refusal is counted;
+    a call that answers as if the proper name had been given has normalised the name."""
+    import unicodedata
+
+    for t in LOOKALIKE_TARGETS:
+        try:
+            out = scn.convert(da, 'tof', t, scatter=True)
+        except Exception as e:  # noqa: BLE001
+            ctx.count(f'look-alike target: refused ({type(e).__name__})')
+        else:
+            if 'energy_transfer' in out.coords and 'energy_transfer' not in da.coords:
+                ctx.violation('name_normalised', f'convert(target={t!r}) ({[unicodedata.name(c) for c in t if ord(c) > 127]}) '
+                              'answered with an energy_transfer coordinate', {'target': t, 'kind': kind}, argument='target')
+            else:
+                ctx.count('look-alike target: returned without energy_transfer')
+        ctx.event('lookalike_names')
+    for m in LOOKALIKE_MODES:
+        try:
+            g = scn.conversion_graph('tof', 'energy_transfer', True, m)
+        except Exception as e:  # noqa: BLE001
+            ctx.count(f'look-alike energy mode: refused ({type(e).__name__})')
+        else:
+            if 'energy_transfer' in g:
+                ctx.violation('name_normalised', f'conversion_graph(energy_mode={m!r}) returned a graph with a rule for '
+                              'energy_transfer', {'energy_mode': m}, argument='energy_mode')
+            else:
+                ctx.count('look-alike energy mode: graph without a rule for energy_transfer')
+        ctx.event('lookalike_names')
+    # the origin: the inelastic graphs of the unchanged package always start from 'tof' and never look at the name
+    # given as origin (any string is accepted); tallied, not judged
+    for o in (*LOOKALIKE_ORIGINS, 'no such coordinate'):
+        try:
+            scn.convert(da, o, 'energy_transfer', scatter=True)
+            ctx.count('origin name not on the data: accepted (the origin is not looked at)')
+        except Exception as e:  # noqa: BLE001
+            ctx.count(f'origin name not on the data: refused ({type(e).__name__})')
+    ctx.hit('names that only normalise to names of the interface')
+
+
+# ------------------------------------------------- first call of a process ---
+FRESH_SCRIPT = r'''
+import json, sys
+import numpy as np
+import scipp as sc
+spec = json.loads(sys.stdin.read())
+def var(s):
+    a = np.array([float.fromhex(x) for x in s['values']], dtype='float64').reshape(s['shape'])
+    if not s['dims']:
+        return sc.scalar(a.item(), unit=s['unit'], dtype='float64')
+    return sc.array(dims=s['dims'], values=a, unit=s['unit'], dtype='float64')
+operands = {k: var(v) for k, v in spec['operands'].items()}
+before = sorted(m for m in sys.modules if m.startswith('scippneutron') or m == 'scipp.constants')
+try:
+    if spec['entry'] == 'convert':
+        tof = operands['tof']
+        da = sc.DataArray(sc.ones(dims=tof.dims, shape=tof.shape, unit='counts'), coords=operands)
+        from scippneutron.core.conversions import convert
+        res = convert(da, 'tof', 'energy_transfer', scatter=True).coords['energy_transfer']
+    else:
+        import importlib
+        res = getattr(importlib.import_module('scippneutron.conversion.tof'), spec['entry'])(**operands)
+    out = {'dims': list(res.dims), 'shape': list(res.shape), 'unit': str(res.unit), 'dtype': str(res.dtype),
+           'values': [float(x).hex() for x in np.asarray(res.values, dtype='float64').ravel()]}
+except BaseException as e:
+    out = {'raised': type(e).__name__ + ': ' + str(e)}
+out['imported_before'] = before
+print('RVFRESH' + json.dumps(out))
+'''
+FRESH_ENTRIES = (('direct', 'energy_transfer_direct_from_tof'), ('indirect', 'energy_transfer_indirect_from_tof'),
+                 ('direct', 'convert'), ('indirect', 'convert'))
+
+
+def fresh_interpreter_case(rng, ctx, scn, K, mon, k):
+    """The first call of an entry point in an interpreter that has imported nothing of the package but the module of
+    that entry point (no scipp.constants, no harness), compared bit by bit with the same call in this process
+    (which the monitors judge against the definition)."""
+    import json
+    import os
+    import subprocess
+    import sys
+
+    kind, entry = FRESH_ENTRIES[k % len(FRESH_ENTRIES)]
+    en = 'incident_energy' if kind == 'direct' else 'final_energy'
+    try:
+        kw = None
+        while kw is None or kw['tof'].dtype != sc.DType.float64:
+            kw, _ = gen(rng, ctx, kind, '2d', False, ('meV', 'us', 'm', 'm'))
+        spec = {'entry': entry, 'operands': {
+            n: {'dims': list(v.dims), 'shape': list(v.shape), 'unit': str(v.unit),
+                'values': [float(x).hex() for x in np.asarray(v.values, dtype=np.float64).ravel()]}
+            for n, v in kw.items()}}
+    except Exception:  # noqa: BLE001
+        ctx.oracle_error('fresh interpreter: inputs')
+        return
+    mon.meta = {'family': 'fresh interpreter', 'entry': entry, 'kind': kind}
+    mon.convert_kind = kind
+    try:
+        if entry == 'convert':
+            da = sc.DataArray(sc.ones(dims=kw['tof'].dims, shape=kw['tof'].shape, unit='counts'), coords=dict(kw))
+            here = scn.convert(da, 'tof', 'energy_transfer', scatter=True).coords['energy_transfer']
+        else:
+            here = getattr(K, entry)(**kw)
+    except Exception as e:  # noqa: BLE001
+        ctx.violation('convert_raised', f'{entry} raised {type(e).__name__}: {e}', dict(mon.meta), family='fresh interpreter')
+        return
+    try:
+        flags = ['-OO'] if sys.flags.optimize >= 2 else []
+        p = subprocess.run([sys.executable, *flags, '-c', FRESH_SCRIPT], input=json.dumps(spec), capture_output=True,
+                           text=True, timeout=300, env=dict(os.environ), check=False)
+        line = next((ln for ln in p.stdout.splitlines() if ln.startswith('RVFRESH')), None)
+    except Exception:  # noqa: BLE001  (also a timeout: wall clock is never a verdict)
+        ctx.oracle_error('fresh interpreter: subprocess')
+        return
+    if line is None:
+        # nothing of the package had run yet when the script failed, or the interpreter died
+        ctx.count('fresh interpreter: no answer (' + (p.stderr.strip().splitlines() or ['?'])[-1][:120] + ')')
+        ctx.inconclusive_because('fresh interpreter: the subprocess gave no answer')
+        return
+    try:
+        got = json.loads(line[len('RVFRESH'):])
+    except Exception:  # noqa: BLE001
+        ctx.oracle_error('fresh interpreter: answer')
+        return
+    ctx.event('fresh_interpreter')
+    ctx.hit(f'first call in a fresh interpreter: {entry} ({kind})')
+    ctx.case(('fresh interpreter', entry, kind))
+    if got.get('imported_before'):
+        ctx.count('fresh interpreter: package modules already imported before the entry point\'s module')
+    if 'raised' in got:
+        ctx.violation('fresh_interpreter', f'{entry} as the first call of a fresh interpreter raised {got["raised"]}',
+                      dict(mon.meta), entry=entry)
+        return
+    try:
+        want = np.asarray(here.values, dtype=np.float64).ravel()
+        have = np.array([float.fromhex(x) for x in got['values']], dtype=np.float64)
+        same = (got['dims'] == list(here.dims) and got['shape'] == list(here.shape) and got['unit'] == str(here.unit)
+                and got['dtype'] == str(here.dtype) and have.shape == want.shape
+                and bool(np.array_equal(have, want, equal_nan=True)))
+    except Exception:  # noqa: BLE001
+        ctx.oracle_error('fresh interpreter: comparison')
+        return
+    if not same:
+        with np.errstate(all='ignore'):
+            worst = (float(np.nanmax(np.abs(have - want) / np.abs(want))) if have.shape == want.shape and have.size
+                     else float('nan'))
+        ctx.violation('fresh_interpreter', f'{entry} as the first call of a fresh interpreter answers differently from the '
+                      f'same call in a process that has used the package (largest relative difference {worst:.3g}; '
+                      f'{got["dims"]} {got["unit"]} {got["dtype"]})', dict(mon.meta), entry=entry)
+
+
+# ------------------------------------------------------- operand lengths ---
+# Lengths scipp / the package use themselves: 1 (broadcast), 2 (a pair of bin edges, a 'range'), 3 (the components
+# of a position vector), 4 (one above): every combination for the pixel and the time dimension.
+SIZES = tuple((a, b) for a in (1, 2, 3, 4) for b in (1, 2, 3, 4))
+
+
+def size_class_name(where, shape):
+    return f'{where}: {shape[0]} pixel(s) x {shape[1]} arrival time(s)'
+
+
 def call_form(form, rng, ctx, scn, K, mon, kind, da, j):
     """Stage 2 of the probe in the calling form; returns False when the call raised (reported)."""
     from scippneutron.conversion import graph as G
@@ -936,42 +1475,61 @@ def call_form(form, rng, ctx, scn, K, mon, kind, da, j):
                 ctx.count('graph does not compare equal to its copy')
         elif pre == 'same input converted before':
             scn.convert(da, 'tof', 'energy_transfer', scatter=flag)
+        elif pre == 'operands modified in place between two calls':
+            if not earlier_call_on_other_contents(ctx, scn, mon, kind, da, flag):
+                return False
         elif pre == 'result of an earlier conversion fed back':
             first = scn.convert(da, 'tof', 'energy_transfer', scatter=flag)
             back = {o: d for o, d in zip(first.dims, da.dims, strict=True) if o != d}
             da = first.drop_coords('energy_transfer').rename_dims(back)
 
-        if how == 'convert mixed':
-            out = scn.convert(da, tof_, et_, scatter=flag)
-        elif how == 'convert positional':
-            out = scn.convert(da, tof_, et_, flag)
-        elif how == 'convert keywords':
-            out = scn.convert(scatter=flag, target=et_, origin=tof_, data=da)
-        else:
+        if how not in ('convert mixed', 'convert positional', 'convert keywords'):
             via = 'graph'
-            if how == 'deduce_conversion_graph positional':
-                g = scn.deduce_conversion_graph(da, tof_, et_, flag)
-            elif how == 'deduce_conversion_graph keywords':
-                g = scn.deduce_conversion_graph(scatter=flag, target=et_, origin=tof_, data=da)
-            elif how == 'conversion_graph positional':
-                g = scn.conversion_graph(tof_, et_, flag, mode)
-            elif how == 'conversion_graph keywords':
-                g = scn.conversion_graph(energy_mode=mode, scatter=flag, target=et_, origin=tof_)
-            elif how == 'graph factories':
-                fac = G.tof.direct_inelastic if kind == 'direct' else G.tof.indirect_inelastic
-                g = {**G.beamline.beamline(scatter=flag), **(fac(tof_) if j % 2 else fac(start=tof_))}
-            elif how == 'kernel as the node of a graph':
-                g = {'energy_transfer': kernel}
-            elif how == 'kernel as a node under another name':
-                target = 'dE'
-                g = {'dE': kernel}
-            elif how == 'graph deep-copied':
-                g = copy.deepcopy(scn.conversion_graph('tof', 'energy_transfer', flag, str(mode)))
-            elif how == 'graph pickled':
-                g = pickle.loads(pickle.dumps(scn.conversion_graph('tof', 'energy_transfer', flag, str(mode))))
+        if how == 'kernel as a node under another name':
+            target = 'dE'
+
+        def invoke():
+            if how == 'convert mixed':
+                return scn.convert(da, tof_, et_, scatter=flag)
+            elif how == 'convert positional':
+                return scn.convert(da, tof_, et_, flag)
+            elif how == 'convert keywords':
+                return scn.convert(scatter=flag, target=et_, origin=tof_, data=da)
             else:
-                raise AssertionError(how)
-            out = da.transform_coords(target if target != 'energy_transfer' else et_, graph=g)
+                if how == 'deduce_conversion_graph positional':
+                    g = scn.deduce_conversion_graph(da, tof_, et_, flag)
+                elif how == 'deduce_conversion_graph keywords':
+                    g = scn.deduce_conversion_graph(scatter=flag, target=et_, origin=tof_, data=da)
+                elif how == 'conversion_graph positional':
+                    g = scn.conversion_graph(tof_, et_, flag, mode)
+                elif how == 'conversion_graph keywords':
+                    g = scn.conversion_graph(energy_mode=mode, scatter=flag, target=et_, origin=tof_)
+                elif how == 'graph factories':
+                    fac = G.tof.direct_inelastic if kind == 'direct' else G.tof.indirect_inelastic
+                    g = {**G.beamline.beamline(scatter=flag), **(fac(tof_) if j % 2 else fac(start=tof_))}
+                elif how == 'kernel as the node of a graph':
+                    g = {'energy_transfer': kernel}
+                elif how == 'kernel as a node under another name':
+                    g = {'dE': kernel}
+                elif how == 'graph deep-copied':
+                    g = copy.deepcopy(scn.conversion_graph('tof', 'energy_transfer', flag, str(mode)))
+                elif how == 'graph pickled':
+                    g = pickle.loads(pickle.dumps(scn.conversion_graph('tof', 'energy_transfer', flag, str(mode))))
+                else:
+                    raise AssertionError(how)
+                return da.transform_coords(target if target != 'energy_transfer' else et_, graph=g)
+
+        held = None
+        if form.get('after') == 'aliasing of result and arguments':
+            try:
+                held = {n: _snapshot(v) for n, v in _operand_vars(da, kind).items()}
+            except Exception:  # noqa: BLE001
+                ctx.oracle_error('aliasing: operands before the call')
+                return False
+        out = invoke()
+        if held is not None:
+            # harness errors are reported inside; exceptions of the repeated call propagate to the handler below
+            aliasing_of_result(ctx, mon, kind, da, out, target, invoke, held)
     except Exception as e:  # noqa: BLE001  no exception is allowed: same neutrons, same geometry, another form
         ctx.violation('convert_raised', f'{form["name"]}: {type(e).__name__}: {e}', dict(mon.meta),
                       family='entry-point form', axis=form['axis'])
@@ -1057,6 +1615,16 @@ def _forms():
         needs=lambda c: _dense(c))
     add('second use', 'graphs handed out earlier were modified by the caller; conversion_graph',
         before='graphs handed out earlier were modified by the caller', call='conversion_graph positional')
+    # (k) the caller's objects held other contents at an earlier call, (l) result and operands share no memory
+    for how in ('convert mixed', 'deduce_conversion_graph positional'):
+        add('in place', f'operands modified in place between two calls; {how}',
+            before='operands modified in place between two calls', call=how)
+    for how in ('convert mixed', 'conversion_graph positional', 'kernel as the node of a graph'):
+        add('aliasing', f'aliasing of result and arguments; {how}', after='aliasing of result and arguments', call=how)
+    # (n) coordinates on the data whose names only normalise (NFKC) to names of the interface: bystanders
+    add('names', 'look-alike coordinate names on the data', decorate=deco_lookalike_coords)
+    add('names', 'look-alike coordinate names on the data; deduce_conversion_graph', decorate=deco_lookalike_coords,
+        call='deduce_conversion_graph positional')
     add('second use', 'graph deep-copied', call='graph deep-copied')
     add('second use', 'graph pickled', call='graph pickled')
     return tuple(out)
@@ -1187,7 +1755,8 @@ def requirements(tier):
                        'convert_result:dense-edges': 200, 'convert_result:dense-points': 200,
                        'convert_result:events': 100,
                        'graph_result:dense-edges': 50, 'graph_result:dense-points': 50, 'graph_result:events': 20,
-                       'variance_propagation': 20},
+                       'variance_propagation': 20, 'all_unphysical_workspace': 200, 'aliasing': 50,
+                       'in_place_between_calls': 50, 'lookalike_names': 50, 'fresh_interpreter': len(FRESH_ENTRIES)},
             'forced': ['tof below t0', 'boundary sextuple', 'per-pixel L1',
                        'float32 with extreme units inside the domain', 'dead pixel (NaN fixed-leg input)']
             + ['convert input: ' + a for a in ALIGNMENT_STATES]
@@ -1198,7 +1767,12 @@ def requirements(tier):
             + [form_class_name(f) for f in FORMS]
             + sorted({'entry point: ' + f.get('call', 'convert mixed') for f in FORMS})
             + [f'variances on {w} ({lay})' for lay in ('scalar', 'one arrival per pixel') for w in VARIANCE_OPERANDS]
-            + [f'heavy: {HEAVY_EVENTS} events', f'heavy: {HEAVY_DENSE[0]} x {HEAVY_DENSE[1]} points'],
+            + [f'heavy: {HEAVY_EVENTS} events', f'heavy: {HEAVY_DENSE[0]} x {HEAVY_DENSE[1]} points']
+            + [unphysical_class_name(k, c) for k in ('direct', 'indirect') for c in RESULT_CLASSES]
+            + [size_class_name(w, z) for w in ('kernel', 'convert') for z in SIZES]
+            + [f'aliasing / in place, kernel operands: {lay}' for lay in ALIAS_LAYOUTS]
+            + ['names that only normalise to names of the interface']
+            + [f'first call in a fresh interpreter: {e} ({k})' for k, e in FRESH_ENTRIES],
             'counters': {'boundary_points': 500, 'decided:below t0': 200, 'decided:above t0': 2000,
                          'convert_calls': 10, 'result:boundary_points': 2000,
                          'result:points exactly at the observed t0': 200,
@@ -1208,6 +1782,9 @@ def requirements(tier):
                          'variances: elements judged against first-order propagation': 100,
                          'result:variances: elements judged against first-order propagation': 200,
                          'refused by scipp: an operand with variances would have to be broadcast': 2,
+                         'all-unphysical workspaces: returned, every energy transfer NaN': 200,
+                         'in place: operands rewritten between two calls': 50,
+                         'aliasing: operands written / results written': 100,
                          'heavy: elements converted in one call': 2 * HEAVY_EVENTS + 2 * HEAVY_DENSE[0] * HEAVY_DENSE[1]},
             }
 
@@ -1236,6 +1813,10 @@ def run(shard, ctx):
             layout = LAYOUTS[rng.integers(0, len(LAYOUTS))]
             f32 = rng.random() < 0.3
             kw = None
+            dimlen = None
+            if i < 2 * len(SIZES):  # operand dimensions of length 1..4, every pair, both geometries, rotating layouts
+                dimlen = SIZES[i // 2]
+                layout = ('2d', 'binned', 'common_tof')[(i // 2 + shard['index']) % 3]
             for _attempt in range(20):
                 lens = LEN_UNITS_WIDE if rng.random() < 0.5 else LEN_UNITS
                 units = (EN_UNITS[rng.integers(0, 4)], TIME_UNITS[rng.integers(0, 4)],
@@ -1245,11 +1826,13 @@ def run(shard, ctx):
                     free = ['angstrom', 'nm'][rng.integers(0, 2)]
                     fixed = ['m', 'cm'][rng.integers(0, 2)]
                     units = ('J', 's', fixed, free) if kind == 'direct' else ('J', 's', free, fixed)
-                kw, sig = gen(rng, ctx, kind, layout, f32, units)
+                kw, sig = gen(rng, ctx, kind, layout, f32, units, shape=dimlen)
                 if kw is not None:
                     break
             if kw is None:
                 continue
+            if dimlen is not None:
+                ctx.hit(size_class_name('kernel', dimlen))
             mon.meta = {'layout': layout, 'units': units, 'f32': f32}
             mon.last_t0 = None
             before = ctx.n_violations
@@ -1275,7 +1858,8 @@ def run(shard, ctx):
                 ctx.violation('convert_raised', f'convert raised {type(e).__name__}: {e}', {'family': 'convert'})
         for j in range(shard.get('result_probes', 0)):
             try:
-                sig = result_probe(rng, ctx, scn, mon, 'direct' if j % 2 == 0 else 'indirect', j)
+                sig = result_probe(rng, ctx, scn, mon, 'direct' if j % 2 == 0 else 'indirect', j,
+                                   dimlen=SIZES[(j + shard['index']) % len(SIZES)] if j < len(SIZES) else None)
                 if sig is not None:
                     ctx.case(sig)
                     ctx.count('convert_result_probes')
@@ -1283,6 +1867,22 @@ def run(shard, ctx):
                 ctx.oracle_error('result_probe')
             finally:
                 mon.boundary = None
+        # workspaces without a single physical arrival: every coordinate layout x both geometries in every shard
+        # (shard 0 included: the runner repeats it as a strict caller, under -OO and with a coarse decimal context);
+        # order / precision (ascending, descending, single) rotate with the shard
+        for rnd in range(shard.get('form_rounds', 0)):
+            urng = np.random.Generator(np.random.PCG64([shard['seed'], shard['index'], 5, 9, rnd]))
+            for k in range(len(RESULT_CLASSES)):
+                for g, kind in enumerate(('direct', 'indirect')):
+                    j = 2 * k + g + 2 * len(RESULT_CLASSES) * ((shard['index'] + rnd) % 3)
+                    try:
+                        sig = result_probe(urng, ctx, scn, mon, kind, j, unphysical=True)
+                        if sig is not None:
+                            ctx.case(sig)
+                    except Exception:  # noqa: BLE001  the harness itself
+                        ctx.oracle_error('all-unphysical probe')
+                    finally:
+                        mon.boundary = None
         # every form of the entry points, both geometries, once per round; layout class, precision and order
         # rotate with the shard so that the 13 shards of a run cross each form with all layouts
         for rnd in range(shard.get('form_rounds', 0)):
@@ -1301,7 +1901,16 @@ def run(shard, ctx):
                     finally:
                         mon.boundary = None
                         mon.expect_refusal = None
+            if rnd == 0 and shard['index'] < len(FRESH_ENTRIES):
+                try:
+                    fresh_interpreter_case(frng, ctx, scn, K, mon, shard['index'])
+                except Exception:  # noqa: BLE001
+                    ctx.oracle_error('fresh interpreter')
             for kind in ('direct', 'indirect'):
+                try:
+                    aliasing_kernel_cases(frng, ctx, K, mon, kind)
+                except Exception:  # noqa: BLE001
+                    ctx.oracle_error('aliasing kernel cases')
                 try:
                     variance_kernel_cases(frng, ctx, K, mon, kind)
                     kw, _ = gen(frng, ctx, kind, '2d', False, ('meV', 'us', 'm', 'm'))
@@ -1311,6 +1920,8 @@ def run(shard, ctx):
                     mon.convert_kind = None
                     mon.meta = {'family': 'scatter false'}
                     false_flag_calls(ctx, scn, da, kind)
+                    mon.meta = {'family': 'look-alike names'}
+                    lookalike_name_calls(ctx, scn, da, kind)
                     # a carrier of variances that scipp would have to broadcast: refused by scipp itself
                     mon.convert_kind = kind
                     mon.meta = {'family': 'variances', 'carrier': 'fixed energy, broadcast'}
@@ -1338,6 +1949,10 @@ LEVEL_TEXT = ('exploration: neutrons are simulated forward (Ei, Ef, L1, L2 -> ar
               'and event coordinate) of every object convert() returned and of every object transform_coords returned '
               'for a graph of the package or a kernel used as a node, in every calling form listed in the rule; result '
               'variances are compared with (2 E_free/(t-t0))^2 var(t) when the arrival time is the only carrier '
-              '(double precision). Sampled inputs, not a proof.')
+              '(double precision). A workspace in which no arrival is physical must come back all NaN without an '
+              'exception (also with warnings as errors: strict-caller variant); operands and returned energy transfer '
+              'share no memory and the call leaves its operands as they were; a call after the caller rewrote its '
+              'objects in place answers for the new contents; the first call in a fresh interpreter equals the call in '
+              'the worker bit by bit. Sampled inputs, not a proof.')
 LEVEL_NOTE = 'trusted: numpy long double, independent SI table, scipp containers, m_n from scipp.constants'
 DESIGN_REF = 'DESIGN.md section 4, C05'
